@@ -68,7 +68,7 @@ def init_cases(draw):
     c = {"init": name, "shape": draw(big_shape(2 if fan_based else 1)),
          "dtype": draw(st.sampled_from(["float32", "float32", "float64"])),
          "rg": draw(st.booleans()), "seed": draw(st.integers(0, 2 ** 31 - 1)),
-         "layout": draw(st.sampled_from(["C", "C", "F", "strided", "transposed_view"])),
+         "layout": draw(st.sampled_from(["C", "C", "F", "strided", "transposed_view", "readonly", "broadcast_readonly"])),
          # the global modes in force while the initialiser runs (initialising under no_grad is the usual idiom)
          "ambient": draw(st.sampled_from(["none", "none", "no_grad", "no_grad", "retain_grads"])),
          "param": draw(st.booleans())}
@@ -133,6 +133,12 @@ def check_init(c, rec):
         base = np.full(shp[:-1] + (2 * shp[-1],), 123.0, dtype=dt)[..., ::2]
     elif lay == "transposed_view" and len(shp) >= 2:
         base = np.full(shp[::-1], 123.0, dtype=dt).T
+    elif lay == "readonly":
+        base = np.frombuffer(np.full(shp, 123.0, dtype=dt).tobytes(), dtype=dt).reshape(shp)      # not writeable
+        rec.tag("readonly_buffer")
+    elif lay == "broadcast_readonly":
+        base = np.broadcast_to(np.asarray(123.0, dtype=dt), shp)                                    # stride 0, not writeable
+        rec.tag("readonly_buffer")
     t = Tensor(base, requires_grad=c["rg"])
     if c.get("param") and c["rg"]:
         t = sg.nn.Parameter(t)
@@ -175,7 +181,8 @@ def check_init(c, rec):
             ret = fn(t)
             mode, nl, a = "fan_in", "leaky_relu", 0
         else:
-            ret = fn(t, a=np.float64(c["a"]) if c.get("a_np") else c["a"], mode=c["mode"], nonlinearity=c["nl"])
+            # the option strings are built at run time (as when they come from a config file): equal, not identical, objects
+            ret = fn(t, a=np.float64(c["a"]) if c.get("a_np") else c["a"], mode="".join(list(c["mode"])), nonlinearity="".join(list(c["nl"])))
             mode, nl, a = c["mode"], c["nl"], c["a"]
         gain = ref_gain(nl, a)
         fan = fan_in if mode == "fan_in" else fan_out
